@@ -159,23 +159,19 @@ Theorem C13_k_refuse_sound_add :
 Proof. exact duplicate_add_refused_k. Qed.
 Print Assumptions C13_k_refuse_sound_add.
 
+Theorem C13_k_backoff_sound :
+  forall mingap gaps, k_backoff mingap gaps = true -> Forall (fun g => (mingap <= g)%Z) gaps.
+Proof. exact k_backoff_sound. Qed.
+Print Assumptions C13_k_backoff_sound.
+
 (** the model satisfies the refusal and silence monitors on every log *)
 Theorem C13_model_refusals : forall c tr s, run c init tr s -> k_refuse false tr = true.
 Proof. exact model_refusals. Qed.
 Print Assumptions C13_model_refusals.
 
-(** attribution of cancellations.  Full statement (false of the code as it is
-    now, see C13_cancel_attributed_refuted and DEFECT C13_1; true once
-    ManagerModel.stale_reconnect_by_name is false):
-      forall c tr s, run c init tr s -> k_cause (c_timeout c) 0 false tr = true
-    Proved for logs in which the name has not been removed before: *)
-Theorem C13_cancel_attributed_partial :
-  forall c tr s, run c init tr s -> readded tr = false ->
-  k_cause (c_timeout c) 0 false tr = true.
-Proof. exact cause_partial. Qed.
-Print Assumptions C13_cancel_attributed_partial.
-
-Theorem C13_cancel_attributed_refuted :
-  exists c tr, emits c tr /\ k_cause (c_timeout c) 0 false tr = false /\ readded tr = true.
-Proof. exact cause_refuted. Qed.
-Print Assumptions C13_cancel_attributed_refuted.
+(** attribution of cancellations: a stream is cancelled only by a Reconnect or
+    Remove of that name issued before, or by its receive timeout *)
+Theorem C13_cancel_attributed :
+  forall c tr s, run c init tr s -> k_cause (c_timeout c) 0 false tr = true.
+Proof. exact cause_full. Qed.
+Print Assumptions C13_cancel_attributed.
